@@ -319,13 +319,18 @@ theorem loadLoop_ne_panic (o : Ord) (ho : o.Valid) (st : State) (hk : KeyId st) 
       cases b with
       | false => exact ih st hk
       | true =>
-        simp only [exec_eq]
-        by_cases h1 : flowErrs st x .init = []
-        · simp only [h1, if_true, flowErrs_log, flowEv_log]
-          by_cases h2 : flowErrs st x .begin = []
-          · simp only [h2, if_true]; exact ih _ (fun k s h => hk k s h)
-          · simp only [h2, if_false]; simp
-        · simp only [h1, if_false]; simp
+        simp only
+        obtain ⟨evs, hst, hres⟩ := notify_spec st x .init .begin Event.load
+        have hu : isUnl Phase.init = false := rfl
+        rw [hu] at hst hres
+        cases hnf : notify st x false .init .begin Event.load with
+        | mk st1 r =>
+          rw [hnf] at hst hres
+          simp only at hst hres
+          rcases hres with ⟨hok, _⟩ | ⟨es, herr, _⟩
+          · subst hok; subst hst
+            exact ih _ (fun k s h => hk k s h)
+          · subst herr; simp
 
 theorem unloadLoop_ne_panic (o : Ord) (ho : o.Valid) (st : State) (hk : KeyId st) (l : List Sym) :
     (unloadLoop o st l).2 ≠ .panic := by
@@ -340,13 +345,18 @@ theorem unloadLoop_ne_panic (o : Ord) (ho : o.Valid) (st : State) (hk : KeyId st
       cases b with
       | false => exact ih st hk
       | true =>
-        simp only [exec_eq]
-        by_cases h1 : flowErrs st x .term = []
-        · simp only [h1, if_true, flowErrs_log, flowEv_log]
-          by_cases h2 : flowErrs st x .final = []
-          · simp only [h2, if_true]; exact ih _ (fun k s h => hk k s h)
-          · simp only [h2, if_false]; simp
-        · simp only [h1, if_false]; simp
+        simp only
+        obtain ⟨evs, hst, hres⟩ := notify_spec st x .term .final Event.unload
+        have hu : isUnl Phase.term = true := rfl
+        rw [hu] at hst hres
+        cases hnf : notify st x true .term .final Event.unload with
+        | mk st1 r =>
+          rw [hnf] at hst hres
+          simp only at hst hres
+          rcases hres with ⟨hok, _⟩ | ⟨es, herr, _⟩
+          · subst hok; subst hst
+            exact ih _ (fun k s h => hk k s h)
+          · subst herr; simp
 
 theorem load_ne_panic (o : Ord) (ho : o.Valid) (st : State) (hk : KeyId st) (sb : Sym) :
     (load o st sb).2 ≠ .panic := by
